@@ -118,7 +118,7 @@ MORE5 = {
  "C07": " `modifyx = 1` is a declaration, not `modify x = 1` (grammar keywords are whole words).",
  "C02": " A map type whose key type may hold a map is a diagnostic (nothing the interpreter cannot hash); a class declares each member name once.",
  "C10": " The variables a place is rooted at are followed through `get`, `or` and parenthesised values.",
- "C11": " What a by-name import binds (known finding D105: a copy, not the module's variable).",
+ "C11": " What a by-name import binds (known finding D105: a copy, not the module's variable). A bare `return` in the top-level code of a file hands the module to the importer (`ret_mod`).",
  "C12": " A failing `get` names the source position of that `get`.",
 }
 for _k, _v in MORE5.items():
